@@ -1,0 +1,74 @@
+//go:build verif
+
+package state
+
+// Contracts for the state tracker and the tracking lock (property C30).
+// Comment-only file: compiled only under the "verif" build tag, contains no
+// code. The "//@" lines are read by /verif/govc.
+//
+// Reading: the tracker's fields are protected by t.change.L. A function whose
+// protected accesses all lie in one critical section is verified as that
+// atomic step: old() is the protected state when the lock was acquired.
+// 18446744073709551615 is the largest uint64.
+
+// A notification is one atomic step: unless tracking is terminated the index
+// advances by exactly one (after 2^64-1 notifications it restarts at 1, never
+// at the sentinel 0); nothing else changes.
+//@ func (*Tracker).NotifyOfChange
+//@   requires t != nil
+//@   ensures[advance] !old(t.terminated) && old(t.index) < 18446744073709551615 ==> t.index == old(t.index) + 1
+//@   ensures[wrap] !old(t.terminated) && old(t.index) == 18446744073709551615 ==> t.index == 1
+//@   ensures[monotone] old(t.index) < 18446744073709551615 ==> t.index >= old(t.index)
+//@   ensures[nonzero] old(t.index) != 0 ==> t.index != 0
+//@   ensures[terminated] old(t.terminated) ==> t.index == old(t.index)
+//@   ensures[sticky] t.terminated == old(t.terminated)
+//@   modifies t.index
+
+// Termination is sticky and does not touch the index.
+//@ func (*Tracker).Terminate
+//@   requires t != nil
+//@   ensures[sticky] t.terminated
+//@   ensures[monotone] t.index == old(t.index)
+
+// Every Unlock of the tracking lock performs exactly one notification on the
+// lock's tracker; UnlockWithoutNotify and Lock perform none.
+//@ func (*TrackingLock).Unlock
+//@   requires l != nil && l.tracker != nil
+//@   at call NotifyOfChange assert[notify] arg0 == l.tracker
+//@   ensures[advance] !old(l.tracker.terminated) && old(l.tracker.index) < 18446744073709551615 ==> l.tracker.index == old(l.tracker.index) + 1
+//@   ensures[monotone] old(l.tracker.index) < 18446744073709551615 ==> l.tracker.index >= old(l.tracker.index)
+//@   ensures[sticky] l.tracker == old(l.tracker) && l.tracker.terminated == old(l.tracker.terminated)
+
+//@ func (*TrackingLock).UnlockWithoutNotify
+//@   requires l != nil && l.tracker != nil
+//@   at call NotifyOfChange assert[none] false
+//@   ensures[monotone] l.tracker == old(l.tracker) && l.tracker.index == old(l.tracker.index) && l.tracker.terminated == old(l.tracker.terminated)
+
+//@ func (*TrackingLock).Lock
+//@   requires l != nil && l.tracker != nil
+//@   at call NotifyOfChange assert[none] false
+//@   ensures[monotone] l.tracker == old(l.tracker) && l.tracker.index == old(l.tracker.index) && l.tracker.terminated == old(l.tracker.terminated)
+
+// Responses sent by the tracking loop carry the index current at the time of
+// sending; a non-terminated response is sent only to a request whose previous
+// index differs from it (a poller is never released without a change), a
+// terminated one only after termination.
+//@ chaninv pollRequest.responses: [response] v.index == t.index && (v.terminated <==> t.terminated) && (!v.terminated ==> r.previousIndex != v.index)
+
+//@ func (*Tracker).track
+//@   requires t != nil
+
+// Polling. With previous index 0 the call is one atomic read: it returns the
+// current index at once, with ErrTrackingTerminated exactly when terminated.
+// Otherwise, if tracking is already terminated it returns the current index
+// and ErrTrackingTerminated at once; else it registers (before signalling the
+// tracking loop) a request that carries the caller's previous index and a
+// response channel (created with room for one response, so that the tracking loop need not
+// block on it - channel capacity is not modelled). The index is never written.
+//@ func (*Tracker).WaitForChange
+//@   requires t != nil && t.pollRequests != nil
+//@   ensures[immediate] previousIndex == 0 ==> result0 == old(t.index) && (result1 == nil <==> !old(t.terminated)) && (result1 != nil ==> result1 == ErrTrackingTerminated)
+//@   ensures[terminated] old(t.terminated) ==> result0 == old(t.index) && result1 == ErrTrackingTerminated
+//@   at call (*Cond).Signal assert[registered] previousIndex != 0 && !t.terminated && request != nil && has(t.pollRequests, request) && t.pollRequests[request] && request.previousIndex == previousIndex && request.responses == responses
+//@   ensures[monotone] t.index == old(t.index) && t.terminated == old(t.terminated)
+//@   ensures[cancelled] result1 == context.Canceled ==> result0 == t.index && !has(t.pollRequests, request)
